@@ -160,10 +160,14 @@ RequiredSameI(x, y) ==
      ELSE IF x.id.ver # "" /\ y.id.ver # "" /\ x.id.ver # y.id.ver THEN "F"
      ELSE IF x.id.ver = y.id.ver /\ x.base = y.base THEN "T"
      ELSE "-"
+(* TLC does not memoise [i \in S |-> e]; `f \o <<>>` turns it into a tuple   *)
+(* of values, so each entry is computed once.                                *)
+Tup(f) == f \o <<>>
+InfoSeq(refs) == Tup([i \in 1..Len(refs) |-> RefInfo(refs[i])])
 RequiredMatrix(refs) ==
   LET D == 1..Len(refs)
-      info == [i \in D |-> RefInfo(refs[i])]
-  IN [i \in D |-> [j \in D |-> RequiredSameI(info[i], info[j])]]
+      info == InfoSeq(refs)
+  IN Tup([i \in D |-> Tup([j \in D |-> RequiredSameI(info[i], info[j])])])
 
 (* The DENOTATION of a case: everything the oracle derives from the case by  *)
 (* character-level work, computed once (by C19_MC when the case is           *)
@@ -196,7 +200,7 @@ Denote(cs) ==
 
 (* ------------------------------------------------------------- judgement *)
 (* Observed probes (all fields always present):                            *)
-(*  PLit [k, nforms, form, hasType, type, base, rid, ver, frag, uri, str]   *)
+(*  PLit [k, nforms, form, hasType, type, itype, base, rid, ver, frag, uri, str] *)
 (*  PId  [k, type, rid, ver, str]     PStr [k, s]     PBool [k, b]          *)
 (*  PCan [k, url, ver, frag, str]                                          *)
 (*  k: "ok" | "err" | "panic" | "timeout" | "skip" (prerequisite missing)   *)
@@ -204,13 +208,13 @@ Denote(cs) ==
 (* denotation d, and returns a sequence of [name, problem] ("" = passed).   *)
 Crashed(p) == p.k \in {"panic", "timeout"}
 LitComps(p) ==
-  CASE p.form = "rest" -> Rest(p.type, p.base, p.rid, p.ver)
+  CASE p.form = "rest" -> Rest(p.itype, p.base, p.rid, p.ver)      \* itype: the type inside the Identity
     [] p.form = "frag" -> Frag(p.frag)
     [] OTHER -> NonRest(p.uri)
 LitEq(p, c) ==
   /\ p.k = "ok" /\ p.nforms = 1 /\ p.form = c.form
   /\ LitComps(p) = c
-  /\ (c.form = "rest" => p.hasType)
+  /\ (c.form = "rest" => p.hasType /\ p.type = c.type)           \* type: LiteralInfo.Type()
 SameLit(p, q) ==
   /\ p.k = "ok" /\ q.k = "ok" /\ p.form = q.form /\ LitComps(p) = LitComps(q)
   /\ p.hasType = q.hasType /\ p.type = q.type /\ p.str = q.str
